@@ -246,13 +246,28 @@ class Run:
         return self
 
 
+def sparse(choices):
+    """A choice sequence is almost all zeros (keep running): (length, ((position,
+    choice), ...)) of the non-zero entries is what travels between processes."""
+    return (len(choices), tuple((k, c) for k, c in enumerate(choices) if c))
+
+
+def dense(p):
+    if isinstance(p, tuple) and len(p) == 2 and isinstance(p[0], int) and isinstance(p[1], tuple):
+        out = [0] * p[0]
+        for k, c in p[1]:
+            out[k] = c
+        return out
+    return list(p)
+
+
 def explore(make, watch, bound, check, journal=None, max_schedules=None, shard=None,
             collect=False, stack0=None, root_only=False):
     """make() -> (bodies, ctx); check(run, ctx) -> (outcome label, violation or None).
     Returns stats; stops at the first violation."""
     st = {'schedules': 0, 'maxpoints': 0, 'outcomes': {}, 'violation': None,
           'capped': False, 'violations': [], 'lock_waits': 0}
-    stack = [list(p) for p in stack0] if stack0 is not None else [[]]
+    stack = [dense(p) for p in stack0] if stack0 is not None else [[]]
     seen_kinds = set()
     st['children'] = []
     while stack:
@@ -291,7 +306,7 @@ def explore(make, watch, bound, check, journal=None, max_schedules=None, shard=N
                 if cost <= bound:
                     for alt in range(1, nen):
                         if root_only:
-                            st['children'].append(x.choices[:i] + [alt])
+                            st['children'].append(sparse(x.choices[:i] + [alt]))
                         else:
                             stack.append(x.choices[:i] + [alt])
             if cur_en and c != 0:
